@@ -45,6 +45,8 @@ def protein_case(draw):
         if a["start"] > 9000:
             a["start"] = 1
         a["oxt"], a["ter"] = True, False
+        for ch_ in desc["chains"]:
+            ch_.pop("altmod", None)  # a hidden chain end is recognised by an atom NAMED OXT
         b["id"] = a["id"]
         b["start"] = a["start"] + len(a["seq"]) + draw(st.sampled_from([0, 0, 5]))
         hidden = True
@@ -63,7 +65,15 @@ def protein_case(draw):
     for o in ("--noopt", "--nodebump", "--keep-chain"):
         if draw(st.integers(0, 4)) == 0:
             opts.append(o)
-    return dict(part="protein", desc=desc, ff=ff, opts=opts, hidden=hidden)
+    blank = None
+    if not hidden and len(desc["chains"]) == 2 and draw(st.integers(0, 3)) == 0:
+        # blank chain ids next to explicit ones: pdb2pqr names a blank chain after its TER count
+        blank = draw(st.sampled_from([[" ", "A"], [" ", "B"], ["A", " "], ["B", " "], [" ", " "]]))
+        for ch, cid in zip(desc["chains"], blank):
+            ch["id"] = cid
+            ch["ter"] = True
+        desc["waters"] = []
+    return dict(part="protein", desc=desc, ff=ff, opts=opts, hidden=hidden, blank=blank)
 
 
 def _printed_sums(A):
@@ -87,6 +97,11 @@ def check_protein(case):
     A = e2e.analyse(desc, ff, opts, s, r)
     sums = _printed_sums(A)
     interesting = len(desc["chains"]) > 1 or case.get("hidden")
+    # known finding D18: a blank chain id is auto-named by its TER count ('A' for the first chain)
+    # without looking at ids already in use: [' ', 'A'] and ['B', ' '] collapse into one chain
+    collide = case.get("blank") in ([" ", "A"], ["B", " "])
+    if case.get("blank"):
+        res.label("blank-chain-id", "blank-collides" if collide else "blank-no-collision")
     total_exp = 0
     all_full = True
     for g in A.inp:
@@ -111,6 +126,11 @@ def check_protein(case):
             interesting = True
         # terminal state applied exactly where a chain end was constructed
         ffname = getattr(obj, "ffname", None)
+        if ffname != state and collide:
+            res.bad("C02:blank-chain-id-collision", f"chains {case['blank']}: {rn} at {pos} of chain {ci} has state {ffname!r}, "
+                    f"constructed {state!r}")  # fmt: skip
+            all_full = False
+            continue
         if ffname != state:
             kind = "terminus" if (ffname or "").lstrip("NEUTRAL-")[-3:] == state[-3:] else "state"
             res.bad(f"C02:{kind}-name", f"{rn} at {pos} of chain {ci} (ids {[c['id'] for c in desc['chains']]}): "
